@@ -410,3 +410,172 @@ Proof.
   destruct (build_edges_aux segs shift []) as [es|]; [|discriminate]. cbn [option_map]. rewrite map_length, lines_of_lines.
   intros H. exact H.
 Qed.
+
+(* footprint for paths with quadratic segments: a covered column lies between the rounded abscissas of two active edges *)
+Theorem quad_fill_footprint p es start stop rc eo out :
+  build_edges_curves p 0 = Some (Some es) -> ~ In Cubic (pverbs p) -> fill_spans es start stop rc eo 0 = Some out ->
+  (forall e, In e es -> start <= e_first_y e) -> 0 <= start -> 0 <= stop ->
+  forall yy c, start <= yy -> (yy < stop \/ yy = start) -> (forall e, In e (active_at es yy) -> x_ok e) ->
+  cov out yy c ->
+  (exists e, In e (active_at es yy) /\ rx e <= c) /\ (exists e, In e (active_at es yy) /\ c < rx e).
+Proof.
+  intros HB NC HF Hs H0 H1 yy c Hy Hr X HC.
+  destruct (quad_path_fill_spec p es start stop rc eo out HB NC HF Hs H0 H1) as (acts & Ha & Hc).
+  destruct (Ha yy Hy Hr) as (A & P).
+  assert (X' : forall e, In e (acts yy) -> x_ok e) by (intros e He; apply X; apply (Permutation_in _ P); exact He).
+  apply (Hc yy c Hy Hr X') in HC.
+  assert (M0 : masked 0 eo = false) by (destruct eo; reflexivity).
+  split.
+  - destruct (existsb (fun e => rx e <=? c) (active_at es yy)) eqn:E.
+    + apply existsb_exists in E. destruct E as (e & He & Le). apply Z.leb_le in Le. eauto.
+    + exfalso. rewrite wsum_before in HC; [congruence|]. intros x wd Hi. unfold xs_of in Hi. apply in_map_iff in Hi.
+      destruct Hi as (e & Ee & He). inversion Ee; subst.
+      destruct (Z_lt_le_dec c (rx e)) as [L | L]; [exact L|]. exfalso.
+      assert (existsb (fun e0 => rx e0 <=? c) (active_at es yy) = true) by (apply existsb_exists; exists e; split; [exact He | apply Z.leb_le; exact L]). congruence.
+  - destruct (existsb (fun e => c <? rx e) (active_at es yy)) eqn:E.
+    + apply existsb_exists in E. destruct E as (e & He & Le). apply Z.ltb_lt in Le. eauto.
+    + exfalso. rewrite wsum_all in HC.
+      * rewrite sum_xs_of in HC. rewrite sumw_active, (proj1 (build_edges_curves_balanced p 0 es HB NC)) in HC. congruence.
+      * intros x wd Hi. unfold xs_of in Hi. apply in_map_iff in Hi. destruct Hi as (e & Ee & He). inversion Ee; subst.
+        destruct (Z_lt_le_dec c (rx e)) as [L | L]; [|exact L]. exfalso.
+        assert (existsb (fun e0 => c <? rx e0) (active_at es yy) = true) by (apply existsb_exists; exists e; split; [exact He | apply Z.ltb_lt; exact L]). congruence.
+Qed.
+
+(* ---- cubic edges: where the pin `newy = max(newy, oldy)` can leave the rows unbalanced ----------------------------------- *)
+Lemma row16_mono y y' r r' : row16 y = Some r -> row16 y' = Some r' -> y <= y' -> r <= r'.
+Proof.
+  unfold row16. intros A B L.
+  assert (S : sar y 10 <= sar y' 10) by (unfold sar; rewrite !Z.shiftr_div_pow2 by lia; apply Z.div_le_mono; lia).
+  pose proof (fdot6_round_spec _ _ A r') as (A1 & _). pose proof (fdot6_round_spec _ _ B r') as (B1 & _).
+  apply A1. assert (sar y' 10 < 64 * r' + 32) by (apply B1; lia). lia.
+Qed.
+
+Lemma cubic_update_loop_full fuel : forall c count oldx oldy c' oe,
+  cubic_update_loop fuel c count oldx oldy = Some (c', oe) -> count <= -1 ->
+  c_lasty c' = c_lasty c /\ c_wind c' = c_wind c /\ c_count c' <= 0 /\ (c_count c' = 0 -> c_lasty c <= c_y c') /\ oldy <= c_y c' /\
+  match oe with
+  | Some e => row16 oldy = Some (e_first_y e) /\ row16 (c_y c') = Some (e_last_y e + 1) /\ e_winding e = c_wind c /\
+              e_first_y e <= e_last_y e
+  | None => c_count c' = 0 /\ exists r, row16 oldy = Some r /\ row16 (c_y c') = Some r
+  end.
+Proof.
+  induction fuel as [|n IH]; intros c count oldx oldy c' oe H Hc; cbn [cubic_update_loop] in H; [discriminate|].
+  apply bind_some' in H. destruct H as (nxt & Enxt & H). destruct nxt as (((((newx, newy0), dx), dy), ddx), ddy).
+  assert (Last : count + 1 = 0 -> newy0 = c_lasty c).
+  { intros Z0. rewrite Z0 in Enxt. cbn in Enxt. injection Enxt as _ E _ _ _ _. symmetry. exact E. }
+  set (newy := if newy0 <? oldy then oldy else newy0) in *.
+  assert (Pin : oldy <= newy /\ newy0 <= newy) by (unfold newy; destruct (Z.ltb_spec newy0 oldy); lia).
+  apply bind_some' in H. destruct H as (r & Er & H).
+  destruct (line_update_rows _ _ _ _ _ _ Er) as (top & bottom & Rt & Rb & Hr).
+  destruct r as [e0|].
+  - pose proof (line_update_ord _ _ _ _ _ _ Er) as Ord.
+    injection H as H1 H2. subst c' oe. cbn [c_y c_wind c_count c_lasty]. destruct Hr as (F & L & W & NE).
+    refine (conj eq_refl (conj eq_refl (conj _ (conj _ (conj (proj1 Pin) (conj _ (conj _ (conj W Ord)))))))); [lia | | |].
+    + intros Z0. rewrite <- (Last Z0). exact (proj2 Pin).
+    + rewrite F. exact Rt.
+    + rewrite L. replace (bottom - 1 + 1) with bottom by lia. exact Rb.
+  - destruct (Z.eqb_spec (count + 1) 0) as [Z0 | NZ].
+    + injection H as H1 H2. subst c' oe. cbn [c_y c_wind c_count c_lasty].
+      refine (conj eq_refl (conj eq_refl (conj _ (conj _ (conj (proj1 Pin) (conj Z0 _)))))); [lia | |].
+      * intros _. rewrite <- (Last Z0). exact (proj2 Pin).
+      * exists top. split; [exact Rt|]. rewrite Hr. exact Rb.
+    + destruct (IH _ _ _ _ _ _ H ltac:(lia)) as (A & B & C & D & E & F). cbn [c_lasty c_wind] in A, B, D, F.
+      refine (conj A (conj B (conj C (conj D (conj _ _))))); [lia|].
+      destruct oe as [e|].
+      * destruct F as (F1 & F2 & F3 & F4). refine (conj _ (conj F2 (conj F3 F4))). rewrite Rt, Hr, <- Rb. exact F1.
+      * destruct F as (F0 & r & F1 & F2). split; [exact F0|]. exists r. split; [|exact F2]. rewrite Rt, Hr, <- Rb. exact F1.
+Qed.
+
+(* the lines of a cubic edge tile the rows from its top row down to [stop], which is never above the row of its last point *)
+Lemma cubic_lines_loop_to fuel : forall c ls r0,
+  cubic_lines_loop fuel c = Some ls -> row16 (c_y c) = Some r0 -> c_count c <= 0 -> (c_count c = 0 -> c_lasty c <= c_y c) ->
+  exists ystop stop, row16 ystop = Some stop /\ c_lasty c <= ystop /\ c_y c <= ystop /\ chained_to (c_wind c) r0 ls stop.
+Proof.
+  induction fuel as [|n IH]; intros c ls r0 H R Hc Hl; cbn [cubic_lines_loop] in H; [discriminate|].
+  destruct (Z.leb_spec 0 (c_count c)) as [Ge | Lt].
+  - injection H as H. subst ls. exists (c_y c), r0. split; [exact R|]. split; [apply Hl; lia|]. split; [lia | reflexivity].
+  - apply bind_some' in H. destruct H as (r & Er & H). destruct r as (c', oe). cbn [fst snd] in H.
+    unfold cubic_update in Er. destruct (Z.leb_spec 0 (c_count c)) as [Ge' | _]; [lia|].
+    destruct (cubic_update_loop_full _ _ _ _ _ _ _ Er ltac:(lia)) as (A & B & C & D & Mo & E).
+    destruct oe as [e|].
+    + apply bind_some' in H. destruct H as (rest & Erest & H). injection H as H. subst ls.
+      destruct E as (E1 & E2 & E3 & E4).
+      destruct (IH _ _ _ Erest E2 C ltac:(intros Z0; rewrite A; exact (D Z0))) as (ystop & stop & S1 & S2 & S3 & S4).
+      exists ystop, stop. split; [exact S1|]. split; [rewrite <- A; exact S2|]. split; [lia|].
+      cbn [chained_to]. rewrite R in E1. injection E1 as E1.
+      repeat split; try assumption; [symmetry; exact E1 | rewrite <- B; exact S4].
+    + injection H as H. subst ls. destruct E as (E0 & r & E1 & E2). rewrite R in E1. injection E1 as E1. subst r.
+      exists (c_y c'), r0. split; [exact E2|]. split; [exact (D E0)|]. split; [exact Mo | reflexivity].
+Qed.
+
+Lemma cubic_new2_rows p0 p1 p2 p3 sh c :
+  cubic_new2 p0 p1 p2 p3 sh = Some (Some c) ->
+  let y0 := fd6 (py p0) sh in let y3 := fd6 (py p3) sh in
+  exists top bot, fdot6_round (Z.min y0 y3) = Some top /\ fdot6_round (Z.max y0 y3) = Some bot /\
+    sar (c_y c) 10 = Z.min y0 y3 /\ sar (c_lasty c) 10 = Z.max y0 y3 /\ c_count c <= -1 /\
+    c_wind c = (if y3 <? y0 then -1 else 1).
+Proof.
+  unfold cubic_new2. cbv zeta.
+  fold (fd6 (px p0) sh) (fd6 (py p0) sh) (fd6 (px p1) sh) (fd6 (py p1) sh) (fd6 (px p2) sh) (fd6 (py p2) sh) (fd6 (px p3) sh) (fd6 (py p3) sh).
+  set (Y0 := fd6 (py p0) sh). set (Y3 := fd6 (py p3) sh). intros E0.
+  assert (Pw : forall s, 0 <= s -> 1 <= 2 ^ s) by (intros s Hs; pose proof (Z.pow_pos_nonneg 2 s ltac:(lia) Hs); lia).
+  destruct (Y3 <? Y0) eqn:Sw; cbv beta iota in E0;
+    [apply Z.ltb_lt in Sw; rewrite Z.min_r, Z.max_l by lia | apply Z.ltb_ge in Sw; rewrite Z.min_l, Z.max_r by lia];
+    apply bind_some' in E0; destruct E0 as (top & Et & E0); apply bind_some' in E0; destruct E0 as (bot & Eb & E0);
+    (destruct (top =? bot) in E0; [discriminate|]);
+    exists top, bot; (split; [exact Et|]); (split; [exact Eb|]);
+    repeat (first [ apply bind_some' in E0; destruct E0 as (? & ? & E0)
+                  | match type of E0 with context [match ?x with pair _ _ => _ end] => is_var x; destruct x end
+                  | match type of E0 with context [if ?c then _ else _] => destruct c eqn:?; try discriminate end ]);
+    cbv beta iota in E0; injection E0 as E0; subst c; cbn [c_y c_lasty c_count c_wind];
+    repeat match goal with
+           | H : fdot6_to_fdot16 ?v = Some ?r |- _ =>
+               unfold fdot6_to_fdot16 in H; destruct (Z.eqb_spec (sar (left_shift v 10) 10) v); [injection H as H; subst r | discriminate]
+           end;
+    (split; [assumption|]); (split; [assumption|]); (split; [|reflexivity]);
+    repeat match goal with H : (_ <=? 0) = false |- _ => apply Z.leb_gt in H end;
+    unfold max_coeff_shift in *;
+    first [ lia | match goal with |- - 2 ^ ?s <= -1 => assert (1 <= 2 ^ s) by (apply Pw; lia); lia end ].
+Qed.
+
+(* THE rows of a cubic edge: contiguous from the rounded ordinate of the upper end point down to a row [stop] that is never
+   above the rounded ordinate of the lower end point -- the pin can only make the edge longer *)
+Theorem cubic_edge_lines_rows p0 p1 p2 p3 sh ls :
+  cubic_edge_lines p0 p1 p2 p3 sh = Some ls ->
+  let y0 := fd6 (py p0) sh in let y3 := fd6 (py p3) sh in
+  exists top bot stop, fdot6_round (Z.min y0 y3) = Some top /\ fdot6_round (Z.max y0 y3) = Some bot /\ bot <= stop /\
+    chained_to (if y3 <? y0 then -1 else 1) top ls stop.
+Proof.
+  unfold cubic_edge_lines. intros H. apply bind_some' in H. destruct H as (c0 & E0 & H). cbv zeta.
+  destruct c0 as [c|].
+  - destruct (cubic_new2_rows _ _ _ _ _ _ E0) as (top & bot & Et & Eb & Sy & Sl & Hc & Hw).
+    assert (R0 : row16 (c_y c) = Some top) by (unfold row16; rewrite Sy; exact Et).
+    assert (RL : row16 (c_lasty c) = Some bot) by (unfold row16; rewrite Sl; exact Eb).
+    apply bind_some' in H. destruct H as (r & Er & H). destruct r as (c', oe). cbn [fst snd] in H.
+    unfold cubic_update in Er. destruct (Z.leb_spec 0 (c_count c)) as [Ge' | _]; [lia|].
+    destruct (cubic_update_loop_full _ _ _ _ _ _ _ Er Hc) as (A & B & C & D & Mo & E).
+    destruct oe as [e|].
+    + apply bind_some' in H. destruct H as (rest & Erest & H). injection H as H. subst ls.
+      destruct E as (E1 & E2 & E3 & E4).
+      destruct (cubic_lines_loop_to _ _ _ _ Erest E2 C ltac:(intros Z0; rewrite A; exact (D Z0))) as (ystop & stop & S1 & S2 & S3 & S4).
+      exists top, bot, stop. split; [exact Et|]. split; [exact Eb|].
+      split; [apply (row16_mono (c_lasty c) ystop); [exact RL | exact S1 | rewrite <- A; exact S2]|].
+      cbn [chained_to]. rewrite R0 in E1. injection E1 as E1. rewrite <- Hw.
+      repeat split; try assumption; [symmetry; exact E1 | rewrite <- B; exact S4].
+    + injection H as H. subst ls. destruct E as (E0' & r & E1 & E2). rewrite R0 in E1. injection E1 as E1. subst r.
+      exists top, bot, top. split; [exact Et|]. split; [exact Eb|].
+      split; [apply (row16_mono (c_lasty c) (c_y c')); [exact RL | exact E2 | exact (D E0')] | reflexivity].
+  - injection H as H. subst ls. cbn [chained_to].
+    revert E0. unfold cubic_new2. cbv zeta.
+    fold (fd6 (px p0) sh) (fd6 (py p0) sh) (fd6 (px p1) sh) (fd6 (py p1) sh) (fd6 (px p2) sh) (fd6 (py p2) sh) (fd6 (px p3) sh) (fd6 (py p3) sh).
+    set (Y0 := fd6 (py p0) sh). set (Y3 := fd6 (py p3) sh). intros E0.
+    destruct (Y3 <? Y0) eqn:Sw; cbv beta iota in E0;
+      [apply Z.ltb_lt in Sw; rewrite Z.min_r, Z.max_l by lia | apply Z.ltb_ge in Sw; rewrite Z.min_l, Z.max_r by lia];
+      apply bind_some' in E0; destruct E0 as (top & Et & E0); apply bind_some' in E0; destruct E0 as (bot & Eb & E0);
+      exists top, bot, top; (split; [exact Et|]); (split; [exact Eb|]);
+      (destruct (Z.eqb_spec top bot) as [E | NE] in E0; [split; [lia | reflexivity]|]);
+      repeat (first [ apply bind_some' in E0; destruct E0 as (? & ? & E0)
+                    | match type of E0 with context [match ?x with pair _ _ => _ end] => is_var x; destruct x end
+                    | match type of E0 with context [if ?c then _ else _] => destruct c; try discriminate end ]);
+      cbv beta iota in E0; discriminate.
+Qed.
